@@ -50,6 +50,10 @@ theorem C11_has (cfg : Cfg) (x : List Frag) (d : JV)
     | nil => rw [h1, h2] at h; simp at h
     | cons b t => simp
 
+/-- non-trivial instance of the hypothesis of `C11_has` for the pinned code: `$..a[0][?]` -/
+example : Cfg.pinned.descentSiblings = false ∨
+    noDescAfter [.descent, .child [97], .nth 0, .filter (fun _ => true)] = true := Or.inr (by decide)
+
 theorem C11_has_fixed (x : List Frag) (d : JV) :
     hasM Cfg.fixed Rep.simple x d = !(getM Cfg.fixed Rep.simple x d).isEmpty :=
   C11_has Cfg.fixed x d (Or.inl rfl)
@@ -114,6 +118,11 @@ theorem C11_walk_get (cfg : Cfg) (hn : cfg.locNegEnd = false) (hc : cfg.locStart
     (walkM cfg Rep.simple x d).Perm (getS cfg Rep.simple x d) := by
   rw [C05.C05_located cfg x d hs he ht hz]
   exact C11_walk cfg hn hc hw x d ht hz
+
+/-- non-trivial instances of the hypotheses of `C11_locate_get` / `C11_walk_get`: the repaired
+configuration satisfies the flag hypotheses, `$.a[1:3]..b` the path hypotheses -/
+example : Cfg.fixed.locNegEnd = false ∧ Cfg.fixed.locStartClamp = false ∧ Cfg.fixed.walkDescentNoSelf = false ∧
+    endsInDescent [.child [97], .slice (some 1) (some 3) none, .descent, .child [98]] = false := by decide
 
 /-- after the proposed fixes: every path not ending in a bare descent -/
 theorem C11_locate_walk_fixed (x : List Frag) (d : JV) (ht : endsInDescent x = false)
